@@ -29,7 +29,7 @@ theorem rootAddr_suffix (base : Bool) (a : Bytes) : ∃ pre, a = pre ++ rootAddr
 theorem MsgOK.root {a tags rst : Bytes} {n : Nat} (h : MsgOK a tags rst n) (base : Bool) :
     MsgOK (rootAddr base a) tags rst n := by
   obtain ⟨pre, hpre⟩ := rootAddr_suffix base a
-  refine ⟨?_, ?_, h.t_nul, h.fit⟩
+  refine ⟨?_, ?_, h.t_nul⟩
   · intro c hc; exact h.a_nul c (by rw [hpre]; exact List.mem_append_right _ hc)
   · have := h.a_idx; rw [hpre] at this; exact this.suffix
 
@@ -61,7 +61,7 @@ theorem root_msg (base : Bool) (a ex : Bytes) (ha : NulFree a) :
 def rootDataNo (base : Bool) (d : RtData) : RtData := if base then { d with nmatches := 0 } else d
 
 theorem dispatch_noLoc (mk : List Bytes → Option Matcher) {P : PPorts} (hwf : P.tab.WF) {n : Nat}
-    (hfit : P.tab.argsFit n = true) {addr tags rst : Bytes} (k : Nat) (hm : MsgOK addr tags rst n)
+    {addr tags rst : Bytes} (k : Nat) (hm : MsgOK addr tags rst n)
     (base : Bool) (d : RtData) (hd : d.loc = none) :
     dispatch mk P.render (addr ++ 0 :: msgTail k tags rst) d base =
       some (finNo P.dflt [] d.obj (rootAddr base addr ++ 0 :: msgTail k tags rst)
@@ -69,7 +69,7 @@ theorem dispatch_noLoc (mk : List Bytes → Option Matcher) {P : PPorts} (hwf : 
   obtain ⟨loc, locSize, locHigh, obj, nmatches, port⟩ := d
   simp only at hd
   subst hd
-  have hsc := scanNoLoc_sem k tags rst n P.tab hwf hfit [] 0 obj (rootAddr base addr)
+  have hsc := scanNoLoc_sem k tags rst n P.tab hwf [] 0 obj (rootAddr base addr)
     (rootDataNo base ⟨none, locSize, locHigh, obj, nmatches, port⟩) false (hm.root base)
   unfold dispatch
   cases base with
@@ -137,14 +137,14 @@ theorem enterLoc_empty (mk : List Bytes → Option Matcher) (names : List Bytes)
   simp [h', RtData.locStr]
 
 theorem dispatch_loc {mk : List Bytes → Option Matcher} (hmk : MkOK mk) {P : PPorts} (hwf : P.tab.WF) {n : Nat}
-    (hfit : P.tab.argsFit n = true) {addr tags rst : Bytes} (k : Nat) (hm : MsgOK addr tags rst n)
+    {addr tags rst : Bytes} (k : Nat) (hm : MsgOK addr tags rst n)
     (base : Bool) (d : RtData) (L0 : Bytes) (hd : d.loc = some L0) (hsz : d.locSize ≠ 0) :
     dispatch mk P.render (addr ++ 0 :: msgTail k tags rst) d base =
       some (finLoc P.dflt [] d.obj (rootAddr base addr ++ 0 :: msgTail k tags rst)
         (semLoc P.tab [] 0 d.obj (rootLoc base L0) (rootAddr base addr) tags (msgTail k tags rst)
           (rootDataLoc base d) false)) := by
-  obtain ⟨hL, hH⟩ := lin_hsh hmk k tags rst n P.tab hwf hfit
-  have hent := ent_of hmk hwf hfit hL hH
+  obtain ⟨hL, hH⟩ := lin_hsh hmk k tags rst n P.tab hwf
+  have hent := ent_of hmk hwf hL hH
   have hE := hent P.dflt [] (rootLoc base L0) (rootAddr base addr) (rootDataLoc base d) (hm.root base)
     (rootDataLoc_loc base d L0 hd) (rootLoc_ne base L0)
   rw [rootDataLoc_obj] at hE
